@@ -39,7 +39,7 @@ def core_schema(mutation=True, subscription=True):
                        ("not", "[Filter!]"), ("range", "Range!"), ("pick", "Pick"),
                        ("type", "Filter"), ("notIn", "[Filter!]"), FieldDef("byKind", "Role", default="ADMIN"), ("extID", "ID")]),
         inp("Range", [("from", "Int"), ("to", "Int")]),
-        inp("Pick", [("byId", "ID"), ("byName", "String"), ("byRange", "Range"), ("by_handle", "String"), ("userID", "ID"), ("type", "Range"), ("inList", "[Int!]")], one_of=True),
+        inp("Pick", [("byId", "ID"), ("byName", "String"), ("byRange", "Range"), ("by_handle", "String"), ("userID", "ID"), ("type", "Range"), ("inList", "[Int!]"), ("grid", "[[Int]]"), ("rows", "[[String!]!]")], one_of=True),
     ]
     roots = {"query": "Q"}
     if mutation:
